@@ -12,22 +12,22 @@ CLAIMED = {
                 text="Bounded exhaustive exploration: every history over {create, poll (same/fresh waker), Ring::poll, kernel completes request i with outcome o} up to the stated depth/deviation bounds is executed on the real a10 code against the simulated kernel; every poll result is compared with a per-operation FIFO reference model of what the kernel posted for that submission (single-shot, two-step, multishot, re-arming iterators). Threads: each task polls its operation on its own thread while a ring thread polls and one kernel actor per task posts its scripted completions at any scheduling point; every schedule up to the preemption bound, same value oracle.",
                 ref="6/C02"),
     "C03": dict(technique=SEQ + " plus " + SCH + "; oracle: waker log at every Ring::poll return / deadlock = lost wake-up",
-                text="Sequential: all histories of polls (same/fresh waker), drops, completions and Ring::poll for SQ sizes 1,2,4 with 1-3 operations; after every Ring::poll the waker of every pending operation whose completion was consumed, and of futures waiting for a submission slot, must have fired. Threads: task thread(s) and ring thread under every schedule up to the preemption bound; a task that is never woken although a later complete Ring::poll consumed its completion / returned with room is a violation.",
+                text="Sequential: all histories of polls (same/fresh waker), drops, completions and Ring::poll for SQ sizes 1,2,4 with 1-3 operations; after every Ring::poll the waker of every pending operation whose completion was consumed, and of futures waiting for a submission slot, must have fired. Threads: task thread(s) and ring thread under every schedule up to the preemption bound; a task that is never woken although a later complete Ring::poll consumed its completion / returned with room is a violation. Also: zero-copy sends (ready with their second completion) and descriptor / readiness streams, Ring::poll(None) as a letter (a call that would wait in the kernel for ever while an operation waits for a slot it has just freed), kernel-thread rings whose thread may be asleep.",
                 ref="6/C03", engine="seqx+schx"),
     "C04": dict(technique=SCH + " plus " + SEQ + " over initial counter values incl. 2^32 wrap",
-                text="Threads: 2-3 submitter threads and a consumer (Ring::poll thread or sq-thread actor) on SQ sizes 1-2 with counters starting at 0 and 2^32-k, all schedules up to the preemption bound; the simulated kernel checks every consumed entry (no overrun, none consumed twice, none lost: every accepted operation resolves with its own result). Sequential: all submit/consume/complete histories for SQ sizes 1,2,4 and 7 initial counter values.",
+                text="Threads: 2-3 submitter threads and a consumer (Ring::poll thread or sq-thread actor) on SQ sizes 1-2 with counters starting at 0 and 2^32-k, all schedules up to the preemption bound; the simulated kernel checks every consumed entry (no overrun, none consumed twice, none lost: every accepted operation resolves with its own result). Sequential: all submit/consume/complete histories for SQ sizes 1,2,4 and 7 initial counter values, on a clamped (maximum size) ring with the kernel going through the submission index array when a10 does not switch it off, and on kernel-thread rings whose thread may sleep. Threads also on single-issuer rings.",
                 ref="6/C04", engine="schx+seqx"),
     "C05": dict(technique=SEQ + " plus " + SCH + ", both with adversarial completion-queue contents (canary scribbling, bookkeeping CQEs, counter wrap)", engine="seqx+schx",
-                text="All batchings of operation and bookkeeping completions (user_data 0-3, CQE_F_SKIP padding) for CQ sizes 2,4 and 7 initial counter values; free CQ slots are overwritten with a canary operation's user_data before every Ring::poll; the per-operation FIFO model, 'canary never resolves' and 'CQ drained, head==tail after Ring::poll' are checked on every history. Threads: the same with task threads, a ring thread, kernel actors posting completions and an actor overwriting every free CQ slot with a stale canary entry at any scheduling point (one scheduling point before each CQE read), counters starting at 0 and 2^32-2.",
+                text="All batchings of operation and bookkeeping completions (user_data 0-3, CQE_F_SKIP padding) for CQ sizes 2,4 and 7 initial counter values; free CQ slots are overwritten with a canary operation's user_data before every Ring::poll; the per-operation FIFO model, 'canary never resolves' and 'CQ drained, head==tail after Ring::poll' are checked on every history; the Ring's own last drain (at drop, with more completions than the queue holds) is judged too. Threads: the same with task threads, a ring thread, kernel actors posting completions and an actor overwriting every free CQ slot with a stale canary entry at any scheduling point (one scheduling point before each CQE read), counters starting at 0 and 2^32-2.",
                 ref="6/C05"),
     "C06": dict(engine="seqx+schx", technique=SEQ + " plus " + SCH + "; oracle: ASYNC_CANCEL requests seen by the kernel vs. drop history, tracking allocator for leaks/double frees",
                 text="All histories with drops at every point of the life cycle of single-shot, two-step and multishot operations (alone and in pairs, SQ full and not full), both outcomes of the cancel race; every ASYNC_CANCEL must target exactly a dropped in-flight operation, and after the epilogue every allocation made by a10 must have been freed exactly once.",
                 ref="6/C06"),
     "C07": dict(technique=SEQ + "; oracle: simulated kernel's descriptor table plus close(2) interposer",
-                text="All histories of descriptor-creating operations (open, O_TMPFILE open, socket, accept and multishot accept on regular and on direct listening descriptors, pipe, to_direct; regular and direct), drops of the futures, of the returned AsyncFds (queue full and not full), AsyncFd::close, and standard stream handles; at the end every descriptor the kernel issued must have been closed exactly once in the way matching its kind, and fds 0-2 never.",
+                text="All histories of descriptor-creating operations (open, O_TMPFILE open, socket, accept and multishot accept on regular and on direct listening descriptors, pipe, to_direct; regular and direct), drops of the futures, of the returned AsyncFds (queue full and not full), AsyncFd::close, and standard stream handles; at the end every descriptor the kernel issued must have been closed exactly once in the way matching its kind, and fds 0-2 never; descriptors are wrapped with the kind that was asked for (incl. open_temp_file); close(2) answering EINTR on the synchronous path; Signals::to_direct_descriptor (the signalfd it replaces).",
                 ref="6/C07"),
     "C08": dict(technique=SEQ + " plus " + SCH + "; oracle: multiset conservation of pool buffer ids across kernel ring / pending completions / live ReadBufs",
-                text="Sequential: all histories of single-shot and multishot pool reads/receives, completions with and without buffers, -ENOBUFS, drops of operations in flight, and drops of the handed-out ReadBufs for pool sizes 1,2,4, buffer sizes 1 and 8, with the 16-bit ring tail starting at 0 and just below 2^16 (wrap inside the history); after every action the buffer ids offered in the kernel's ring, selected for undelivered completions and owned by live ReadBufs must partition the pool, ring entries must describe their buffer, and ReadBuf contents must be what the kernel wrote. Threads: 2-3 threads dropping ReadBufs concurrently (optionally while the kernel keeps selecting buffers), all schedules up to the preemption bound.",
+                text="Sequential: all histories of single-shot and multishot pool reads/receives, completions with and without buffers, -ENOBUFS, drops of operations in flight, and drops of the handed-out ReadBufs for pool sizes 1,2,4, buffer sizes 1 and 8, with the 16-bit ring tail starting at 0 and just below 2^16 (wrap inside the history); after every action the buffer ids offered in the kernel's ring, selected for undelivered completions and owned by live ReadBufs must partition the pool, ring entries must describe their buffer, and ReadBuf contents must be what the kernel wrote. Threads: 2-3 threads dropping ReadBufs concurrently (optionally while the kernel keeps selecting buffers), all schedules up to the preemption bound, with a temporal oracle (the kernel never selects a buffer a live ReadBuf owns) and pools whose buffers are all handed out (release into ring slot 0). A pool life-cycle world: get / read / explicit release / clear / drop of two ReadBufs and the pool handle in every order; buffer sizes that are not powers of two.",
                 ref="6/C08", engine="seqx+schx"),
     "C09": dict(technique=SEQ + " over fault sequences (EINTR/ECANCELED)^k followed by every final outcome",
                 text="For each of ~45 operation shapes: also a kernel error (EIO) as the answer to any request; every sequence of EINTR/ECANCELED completions followed by every final outcome; the re-issued submission must be byte-identical (same user_data, same addresses), the caller must observe only the last attempt's result (reference model), and no cancel request may be emitted.",
@@ -46,7 +46,7 @@ CLAIMED = {
                 ref="6/C13", category="exploration", engine="casex",
                 note="Trusted base: the Linux kernel of this sandbox (6.18) and libc as the oracle for part B; the ABI table in harness/src/c13.rs for part A. Exhaustive over the stated argument alphabets only."),
     "C14": dict(technique="bounded exhaustive enumeration of inputs against an independent reference (casex)",
-                text="Every provided Buf/BufMut/BufSlice/BufMutSlice implementation and wrapper (Vec, Box<[u8]>, String, Box<str>, static slices, both Cows, Arc<[u8]>, Arc<str>, StaticBuf, arrays and heterogeneous tuples of arity 1..8, LimitedBuf around each) over capacities {0,1,2,3,8,64}, fill levels, 12 limits incl. 2^32-1, 2^32, 2^32+1, 2^32+5 and usize::MAX, limits on and inside every member boundary, and every n for set_init, plus extend_from_slice with fewer, exactly as many and more bytes than fit: exposed pointer/length pairs inside the buffer's own memory, lengths/spare capacities agree with them, set_init(n) appends exactly the n bytes written front to back, limit never exceeded and decreased by n.",
+                text="Every provided Buf/BufMut/BufSlice/BufMutSlice implementation and wrapper (Vec, Box<[u8]>, String, Box<str>, static slices, both Cows, Arc<[u8]>, Arc<str>, StaticBuf, arrays and heterogeneous tuples of arity 1..8, LimitedBuf around each) over capacities {0,1,2,3,8,64}, fill levels, 12 limits incl. 2^32-1, 2^32, 2^32+1, 2^32+5 and usize::MAX, limits on and inside every member boundary, and every n for set_init, plus extend_from_slice with fewer, exactly as many and more bytes than fit: exposed pointer/length pairs inside the buffer's own memory, lengths/spare capacities agree with them, set_init(n) appends exactly the n bytes written front to back, limit never exceeded and decreased by n. Also pool ReadBufs at every fill level, static slices of 2^32-1 .. 5 GiB bytes over a never-touched mapping, and the crate-private skipping / counting wrappers through every request of the composite-operation world.",
                 ref="6/C14", category="exploration", engine="casex",
                 note="Pure functions; exhaustive over the stated alphabets. The crate-private SkipBuf/ReadNBuf wrappers are covered through C10's submissions."),
     "C15": dict(technique="explicit-state exploration of edit sequences on the real ReadBuf against a Vec<u8> reference (seqx, merged by contents)",
